@@ -91,10 +91,29 @@ IIntersect(a, b, k) == Walk(a, b, k, Len(a) - 1, Len(b) - 1, 0, 0)     \* <<inte
 
 ---------------------------------------------------------------------------
 (* Mash distance in 10^-8 fixed point.  LnT[n][i] = round(10^8 * -ln(2j/(1+j))), j = i/n, n <= 32
-   (MashLnTable.tla, generated by gen_mash_ln_table.py with 50-digit decimals). *)
+   (MashLnTable.tla, generated by gen_mash_ln_table.py with 50-digit decimals);
+   LnP[p] = the same for j = 2^-p, p <= 14. *)
 One == 100000000
 TableMax == Len(LnT)
 RDiv(a, b) == (2 * a + b) \div (2 * b)                 \* a / b rounded to nearest (a, b > 0)
 DistFP(i, n, k) == IF i = 0 THEN One ELSE Min2(One, RDiv(LnT[n][i], k))
 Near(x, y) == x - y <= 1 /\ y - x <= 1                 \* tolerance: one unit of 10^-8
+\* Off the table's grid (denominator > TableMax) the closed form cannot be evaluated, but it is decreasing
+\* in j, so the value at jn/jd lies between the table values at the neighbouring fractions lo/TableMax <=
+\* jn/jd <= hi/TableMax (a consequence of the property, hence never a false alarm).
+\* Below 1/TableMax the neighbours are the powers of two 2^-(p+1) <= jn/jd <= 2^-p of the second table LnP.
+PMax == Len(LnP)
+DistFPP(p, k) == Min2(One, RDiv(LnP[p], k))                       \* FromJaccard(2^-p, k)
+IsPow2(jd) == \E p \in 1..PMax : 2^p = jd
+Log2(jd) == CHOOSE p \in 1..PMax : 2^p = jd
+InBracket(d, jn, jd, k) ==
+  IF jn = 0 THEN d = One
+  ELSE IF jn * TableMax >= jd
+  THEN LET lo == (jn * TableMax) \div jd
+           hi == IF (jn * TableMax) % jd = 0 THEN lo ELSE lo + 1
+       IN d <= DistFP(lo, TableMax, k) + 1 /\ d >= DistFP(hi, TableMax, k) - 1
+  ELSE LET ps == { p \in 1..(PMax - 1) : jn * 2^(p + 1) >= jd /\ jn * 2^p <= jd }
+       IN IF ps = {} THEN d <= One /\ d >= DistFPP(PMax, k) - 1
+          ELSE LET p == CHOOSE q \in ps : TRUE
+               IN d <= DistFPP(p + 1, k) + 1 /\ d >= DistFPP(p, k) - 1
 =============================================================================
